@@ -436,6 +436,7 @@ def race_case(args):
         start_snap = _APP.snapshot()
         v = gen.View(start_dump)
         oplist = pick_tree_race(rng, g, v, profile) if profile.get('picker') == 'tree' else pick_race(rng, g, v, profile)
+        out['shapes'] = list(SHAPES) if profile.get('picker') != 'tree' else []
         with_model = profile.get('model', True) and all(op['op'] in MODEL_SCHED_OPS for op in oplist)
         out['pairs'].append('+'.join(op['op'] for op in oplist))
         serial_cache = {}
@@ -662,9 +663,13 @@ def pick_tree_race(rng, g, v, profile):
             {'op': 'rp_traits_set', 'mv': 39, 'uuid': a, 'gen': v.rps[a]['gen'], 'traits': [tr]}]
 
 
+SHAPES = []     # the directed shapes applied to the case being built (reported in the evidence)
+
+
 def pick_race(rng, g, v, profile):
     """two or three requests racing for a common provider and/or consumer, generations read from the
     start state (so that they are all 'current' and conflict), sometimes stale"""
+    del SHAPES[:]
     n = 3 if rng.random() < profile.get('p_three', 0.0) else 2
     kinds = profile['race_kinds']
     ks = list(kinds)
@@ -723,6 +728,7 @@ def pick_race(rng, g, v, profile):
     puts = [o for o in out if o['op'] == 'alloc_put']
     keys = list(v.invs)
     if len(puts) >= 2 and keys and rng.random() < 0.35:
+        SHAPES.append('accepted-vs-rejected-write')
         a, b = rng.sample(puts, 2)
         b['c']['uuid'] = a['c']['uuid']
         for o in (a, b):
@@ -739,6 +745,7 @@ def pick_race(rng, g, v, profile):
     posts = [o for o in ws if o['op'] == 'alloc_post']
     holders = [c for c in v.consumers if v.by_consumer.get(c)]
     if posts and len(ws) >= 2 and holders and rng.random() < profile.get('p_move', 0.25):
+        SHAPES.append('move-vs-write')
         mover = posts[0]
         other = [o for o in ws if o is not mover][0]
         cu = cons if cons in holders else rng.choice(holders)
@@ -758,6 +765,7 @@ def pick_race(rng, g, v, profile):
     # has been validated: the rejection must leave that consumer alone
     mposts = [o for o in out if o['op'] == 'alloc_post' and o['mv'] >= 28]
     if mposts and holders and rng.random() < profile.get('p_late_reject', 0.15):
+        SHAPES.append('post-late-reject')
         mp = mposts[0]
         first = rng.choice(holders)
         second = rng.choice([c for c in gen.CONSUMERS if c != first])
@@ -770,6 +778,7 @@ def pick_race(rng, g, v, profile):
     # project / user / consumer-type names no request has used before, the SAME in all racing writes: the records are
     # created on first use (look-up, then insert), and losing that race must not surface
     if rng.random() < profile.get('p_new_names', 0.15):
+        SHAPES.append('new-names')
         tag = rng.randrange(10 ** 6)
         for o in out:
             for c in ([o['c']] if o['op'] == 'alloc_put' else o.get('cs', []) if o['op'] in ('alloc_post', 'reshape') else []):
@@ -796,6 +805,7 @@ def pick_race(rng, g, v, profile):
         k2 = [kk for kk in v.invs if kk[0] == tgt]
         k1 = [kk for kk in v.invs if kk[0] != tgt]
         if k1 and k2:
+            SHAPES.append('two-providers-contended-second')
             a, b = rng.choice(k1), rng.choice(k2)
             w = writes[0]
             c = w['c'] if w['op'] == 'alloc_put' else w['cs'][0]
@@ -811,6 +821,7 @@ def pick_race(rng, g, v, profile):
     if resh and others and rng.random() < profile.get('p_empty_reshape', 0.4):
         tgt = others[0]['uuid']
         holders = sorted(c for c, lst in v.by_consumer.items() if any(u == tgt for (u, rc, used) in lst))
+        SHAPES.append('emptying-reshape-vs-guarded')
         r = resh[0]
         r['invs'] = [{'uuid': tgt, 'gen': v.rps[tgt]['gen'], 'invs': []}]
         r['cs'] = []
@@ -868,6 +879,8 @@ def run_races(chk, props, n_cases, max_leaves, profile, procs=None):
             chk.count('schedules_explored', res['leaves'])
             chk.count('race_cases', 1)
             chk.count('schedules_skipped_sqlite_rowid_reuse', res.get('rowid_reused', 0))
+            for sh in res.get('shapes', []):
+                chk.tally('directed_shapes', sh)
             for p in res['pairs']:
                 chk.tally('races', p)
                 chk._distinct.add(p)
